@@ -760,21 +760,35 @@ class Backend(ABC):
                 if result is not None:
                     queries.append(result)
 
-            # Apply the finalization step
-            finalized_queries = [
-                self.finalize_query(
-                    rule,
-                    query,
-                    index,
-                    states[index],
-                    output_format or self.default_format,
-                )
-                for index, query in enumerate(queries)
-            ]
-            rule.set_conversion_result(finalized_queries)
-            rule.set_conversion_states(states)
+            # Apply the finalization step. As for detection rules, correlation rules that refer to
+            # this rule embed the raw query unless the backend requests finalized subqueries and
+            # the rule is only emitted itself if its output was not disabled by a referring rule.
+            store_finalized = self.finalize_correlation_subqueries or not rule._backreferences
+            if not store_finalized:
+                rule.set_conversion_result(queries)
+                rule.set_conversion_states(states)
+            finalized_queries = (
+                [
+                    self.finalize_query(
+                        rule,
+                        query,
+                        index,
+                        states[index],
+                        output_format or self.default_format,
+                    )
+                    for index, query in enumerate(queries)
+                ]
+                if store_finalized or rule._output
+                else []
+            )
+            if store_finalized:
+                rule.set_conversion_result(finalized_queries)
+                rule.set_conversion_states(states)
 
-            return finalized_queries
+            if rule._output:
+                return finalized_queries
+            else:
+                return []
         except SigmaError as e:
             if self.collect_errors:
                 self.errors.append((rule, e))
